@@ -17,16 +17,16 @@ SPEC = {
     ],
     "rule": "minicbor: a buffer (well-formed items with every head width / indefinite form / nesting <= 3, truncations, every head "
             "byte x short tails, typed shapes, random bytes, one-byte mutations) followed by 1..6 primitive calls; non-trivial = at "
-            "least one call accepted and one rejected. cborwrap: 51 concrete instantiations of the utils.rs wrappers (depth <= 3) x "
+            "least one call accepted and one rejected. cborwrap: 58 concrete instantiations of the utils.rs wrappers (depth <= 3) x "
             "{rt <value from seed> | dec <restyled encoding: other head widths, def<->indef flips> | truncated / mutated / foreign "
-            "item | KeepRaw mut/peek}; non-trivial = a value whose encoding is longer than one byte round-tripped, or a "
+            "item | KeepRaw mut/peek}; thorough adds the exhaustive small domains (every 1- and 2-byte input of AnyUInt, every two-byte container head; every initial byte x second byte x primitive for minicbor); non-trivial = a value whose encoding is longer than one byte round-tripped, or a "
             "retaining wrapper accepted an input longer than one byte (and was compared with its re-encoding). distinct = sha1 of op text.",
     "trusted_base": [
         "Model/Minicbor.lean is a hand transcription of minicbor 0.26.5 decode/decoder.rs (+ Vec/Option/tuple/map_iter impls of decode.rs, "
         "Encoder::type_len); a Decoder{buf,pos} is represented by the suffix buf[pos..]; tie = stream `minicbor` (value, position, error class of "
         "every primitive call compared)",
         "Model/CborWrappers.lean is a hand transcription of pallas-codec/src/utils.rs and the codec_by_datatype! macro; tie = stream `cborwrap` "
-        "(decoded value, consumed length, re-encoding, error class compared for 51 concrete types)",
+        "(decoded value, consumed length, re-encoding, error class compared for 58 concrete types)",
     ],
     "assumptions": [
         "values are well formed in the sense stated in each theorem: AnyUInt::MajorByte holds an immediate value (< 24); a Nullable payload's "
